@@ -66,6 +66,53 @@ def run_wide(cases, res):
         if mo['kind'] != 'ok' or mo['codes'] != io['codes']:
             res.fail(c, 'model object path disagrees with the implementation although Spec agrees', expected=mo, got=io['codes']); res.failures[-1]['no_input'] = True
 
+def wide2d_cases(rng, n, omodes=('wrap',)):
+    """2-D arrays of Python integers into words of 64 bits and more, in three memory layouts (C order, a transposed view, Fortran
+    order): the code stored at a position is the residue (or the bound) of the input AT THAT POSITION"""
+    cases = []
+    for _ in range(n):
+        nw = rng.choice([64, 65, 72, 100, 128, 256]); s = rng.random() < 0.6; nf = rng.choice([0, 0, 1, nw // 2])
+        lo, hi = S.fmt_bounds(s, nw); r_, c_ = rng.choice([(2, 3), (3, 2), (2, 2)])
+        m = [rng.choice([lo, hi, lo - 1 - rng.randint(0, 9), hi + 1 + rng.randint(0, 9), rng.randint(-5, 5), rng.randint(lo, hi), rng.getrandbits(rng.choice([nw, 2 * nw, 300])) * rng.choice([1, -1]), 3 * (1 << nw) + rng.randint(-9, 9)])
+             for _k in range(r_ * c_)]
+        cases.append({'s': s, 'nw': nw, 'nf': nf, 'shape2d': [r_, c_], 'm': m, 'layout': rng.choice(['C', 'T', 'T', 'F']), 'raw': nf == 0 or rng.random() < 0.7,
+                      'o': rng.choice(list(omodes)), 'route': rng.choice(['ctor', 'set_val', 'call'])})
+    return cases
+
+def run_wide2d(cases, res, pid='C03'):
+    fx = lib.impl(); import numpy as np
+    pend = []; reqs = []
+    for c in cases:
+        r_, c_ = c['shape2d']; m = c['m']
+        try:
+            if c['layout'] == 'T':      # the array handed over is a transposed VIEW of a (c_, r_) array holding the same matrix
+                base = np.array([m[i * c_ + j] for j in range(c_) for i in range(r_)] + [None], dtype=object)[:-1].reshape(c_, r_); a = base.T
+            else:
+                a = np.array(m + [None], dtype=object)[:-1].reshape(r_, c_)
+                if c['layout'] == 'F': a = np.asfortranarray(a)
+            kw = dict(overflow=c['o'])
+            if c['route'] == 'ctor': x = fx.Fxp(a, c['s'], c['nw'], c['nf'], raw=c['raw'], **kw)
+            else:
+                x = fx.Fxp(np.zeros((r_, c_)), c['s'], c['nw'], c['nf'], **kw)
+                if c['route'] == 'set_val' or c['raw']: x.set_val(a, raw=c['raw'])
+                else: x(a)
+            got = ([int(v) for v in np.asarray(x.val).reshape(-1).tolist()], tuple(np.asarray(x.val).shape), lib.status3(x)[:2])
+        except Exception as e:
+            res.fail(c, pid + ': storing a 2-D array of Python integers into a wide word raised %s' % lib.exc_name(e), got=str(e)[:200]); continue
+        sc = [Fraction(v) if c['raw'] else Fraction(v) * Fraction(2) ** c['nf'] for v in m]
+        pend.append((c, got)); reqs.append([4] + e_fmt(c['s'], c['nw'], 0) + [0, OMODES.index(c['o'])] + e_list(sc, e_dy))
+    outs = model_call(reqs)
+    for (c, got), o in zip(pend, outs):
+        rd = Reader(o); want = rd.lst(rd.z); wf = (rd.b(), rd.b())
+        res.count('W:wide-2d-layouts', key=repr(c), nontrivial=c['layout'] != 'C', n=len(want))
+        res.sample({k: c[k] for k in ('s', 'nw', 'nf', 'shape2d', 'layout', 'route', 'o')})
+        if got[1] != tuple(c['shape2d']):
+            res.fail(c, pid + ': shape of the stored 2-D array differs from the input', expected=c['shape2d'], got=got[1]); continue
+        if got[0] != want:
+            res.fail(c, pid + ': a 2-D array of Python integers handed over in a non-contiguous memory layout is not stored position by position (the code at [i, j] must be the residue / bound of the input at [i, j])', expected=want, got=got[0]); continue
+        if got[2] != wf:
+            res.fail(c, pid + ': overflow / underflow flags of a 2-D wide store are wrong', expected=wf, got=got[2])
+
 def period_cases(rng, n):
     cases = []
     while len(cases) < n:
@@ -294,6 +341,7 @@ def shard(shard, nshards, rng, tier, extra):
     check_store_cases(cases, res, 'B:random-core-wrap', 'C03')
     run_period(period_cases(rng, (1500 if tier == 'quick' else 40000) // nshards), res)
     run_wide(wide_cases(rng, (2500 if tier == 'quick' else 60000) // nshards), res)
+    run_wide2d(wide2d_cases(rng, (300 if tier == 'quick' else 8000) // nshards), res)
     run_register(register_cases(rng, (1200 if tier == 'quick' else 30000) // nshards), res)
     run_widesrc(widesrc_cases(rng, (600 if tier == 'quick' else 15000) // nshards), res)
     run_outreg(outreg_cases(rng, (800 if tier == 'quick' else 20000) // nshards), res)
@@ -322,6 +370,7 @@ def replay(payload):
     if 'vals' in c: check_store_cases([c], res, 'replay', 'C03')
     elif 'steps' in c: c['steps'] = [tuple(t) for t in c['steps']]; run_register([c], res)
     elif 'src' in c: run_widesrc([c], res)
+    elif 'shape2d' in c: run_wide2d([c], res)
     elif 'out' in c: run_outreg([c], res)
     elif 'v2' in c:
         c['v'] = Fraction(c['v']); c['v2'] = Fraction(c['v2']); run_period([c], res)
